@@ -19,4 +19,4 @@ CFG = {'streams': [{'name': 'C03',
                  '(validated by C13)',
                  'syntax nodes are identified by preorder index (KeyInjective: node ids distinct modulo 2^32, checked per tree in C04)',
                  "A1-A3: the merged query knows every stanza capture name, gives it the stanza's quantifier under that stanza's pattern, and its "
-                 "matches per pattern are a permutation of the stanza query's matches (validated on every case)"]}
+                 "matches per pattern are a permutation of the stanza query's matches UP TO RE-INDEXING of the captures (the merged query numbers capture names over all stanzas, the stanza query over its own: compared by NAME; validated on every case)"]}
